@@ -23,17 +23,18 @@ theorem step_other_frontends (E : Env) (cls : SolverClass) (w : World) (i : Nat)
     (hj : j ≠ i) (hlt : j < w.fes.length) :
     (step E cls w i op).2.fes[j]? = w.fes[j]? := by
   cases op <;> simp only [step, outOf_world, runOn_fes _ _ _ _ hj]
-  -- branch
-  generalize (do let fe ← M.getFe; (classOps E cls).copy ((classOps E cls).blankCopy fe {}) : M Frontend) = m
-  have h1 := runOn_fes w i m j hj
-  have h2 := runOn_fes_length w i m
-  generalize runOn w i m = x at h1 h2 ⊢
-  rcases x with ⟨r, w'⟩
-  cases r with
-  | error e => simpa using h1
-  | ok c =>
-    simp only at h1 h2 ⊢
-    rw [List.getElem?_append_left (by omega)]
-    exact h1
+  case pickle => rw [List.getElem?_set_ne (Ne.symm hj)]
+  case branch =>
+    generalize (do let fe ← M.getFe; (classOps E cls).copy ((classOps E cls).blankCopy fe {}) : M Frontend) = m
+    have h1 := runOn_fes w i m j hj
+    have h2 := runOn_fes_length w i m
+    generalize runOn w i m = x at h1 h2 ⊢
+    rcases x with ⟨r, w'⟩
+    cases r with
+    | error e => simpa using h1
+    | ok c =>
+      simp only at h1 h2 ⊢
+      rw [List.getElem?_append_left (by omega)]
+      exact h1
 
 end Claripy.Solver
